@@ -8,8 +8,11 @@ Translated on every run from the CURRENT source:
   quara/protocol/qtomography/standard/standard_qtomography.py            StandardQTomography.is_fullrank_matA
   quara/protocol/qtomography/standard/linear_estimator.py                LinearEstimator.calc_estimate_sequence, .calc_estimate
   quara/protocol/qtomography/standard/standard_qtomography_estimator.py  StandardQTomographyEstimationResult.estimated_var,
-                                                                         .estimated_var_sequence  (+ the two constructors are
-                                                                         CHECKED to store their first argument unchanged)
+                                                                         .estimated_var_sequence, .estimated_qoperation,
+                                                                         .estimated_qoperation_sequence  (+ the two constructors
+                                                                         are CHECKED to store their first argument unchanged;
+                                                                         self._template_qoperation.generate_from_var is an
+                                                                         abstract function parameter `gfv` of the generated code)
 Accepted subset (anything else raises Unsupported -> the tie is reported broken, never skipped):
   statements   docstring; NAME = <expr>; NAME = []; NAME.append(<expr>); `if <bool>: raise <builtin exception>` (no else);
                `for NAME in <sequence parameter>:` with exactly one list that is appended to (the loop state); return <expr>;
@@ -20,7 +23,8 @@ Accepted subset (anything else raises Unsupported -> the tie is reported broken,
                X - Y (vectors); np.linalg.inv(X); np.linalg.matrix_rank(X); X.shape[0|1]; min(X.shape); A == B on ints;
                not B; np.hstack(L); np.vstack(L).flatten(); [t[1] for t in D]; [D];
                self.calc_estimate_sequence(Q, S, FLAG); LinearEstimationResult(L, <timing name | None>, Q._template_qoperation);
-               self._estimated_var_sequence; self._estimated_var_sequence[0]
+               self._estimated_var_sequence; self._estimated_var_sequence[0];
+               self._template_qoperation.generate_from_var(V); [self._template_qoperation.generate_from_var(v) for v in L]
 The class of the exception raised at the guard is NOT translated (every accepted builtin exception class maps to ExException).
 """
 import ast
@@ -113,6 +117,15 @@ class Fn:
             raise Unsupported("an operation that can raise inside a function translated as pure")
         return code, ty, mon
 
+    def gfv_arg(self, e):
+        """e is self._template_qoperation.generate_from_var(<one positional argument>) -> that argument, else None"""
+        if isinstance(e, ast.Call) and len(e.args) == 1 and not e.keywords and isinstance(e.func, ast.Attribute) and e.func.attr == "generate_from_var":
+            t = e.func.value
+            if isinstance(t, ast.Attribute) and t.attr == "_template_qoperation" and isinstance(t.value, ast.Name) and t.value.id == self.self_name \
+                    and self.self_kind == "result":
+                return e.args[0]
+        return None
+
     def expr(self, e):
         if isinstance(e, ast.Name):
             if e.id in self.env:
@@ -170,6 +183,9 @@ class Fn:
             if src[1] == "dataset" and isinstance(el, ast.Subscript) and isinstance(el.value, ast.Name) and el.value.id == g.target.id \
                     and isinstance(el.slice, ast.Constant) and type(el.slice.value) is int and el.slice.value == 1:
                 return self.seq2([src], lambda n: ("map snd %s" % n[0], "veclist", False))
+            a = self.gfv_arg(el)
+            if src[1] == "varlist" and a is not None and isinstance(a, ast.Name) and a.id == g.target.id:
+                return self.seq2([src], lambda n: ("map gfv %s" % n[0], "objlist", False))
             fail(e, "list comprehension %s" % ast.unparse(e))
         if isinstance(e, ast.List) and len(e.elts) == 1:
             c = self.expr(e.elts[0])
@@ -180,6 +196,12 @@ class Fn:
 
     def call(self, e):
         f = e.func
+        a = self.gfv_arg(e)
+        if a is not None:
+            c = self.expr(a)
+            if c[1] != "vec":
+                fail(e, "generate_from_var of a %s" % c[1])
+            return self.seq2([c], lambda n: ("gfv %s" % n[0], "obj", False))
         # Q.calc_matA() / Q.calc_vecB() / Q.is_fullrank_matA()
         if isinstance(f, ast.Attribute) and isinstance(f.value, ast.Name) and f.attr in ("calc_matA", "calc_vecB", "is_fullrank_matA") \
                 and not e.args and not e.keywords and (self.env.get(f.value.id) == "qt"):
@@ -449,11 +471,26 @@ def main(repo, out):
     if fn.ret_type != "varlist":
         fail(f, "estimated_var_sequence returns a %s" % fn.ret_type)
     defs.append("Definition gen_estimated_var_sequence (v_%s : est_result F) : list (list F) :=\n  %s." % (p_self, code))
+    f = find_method(t_er, "StandardQTomographyEstimationResult", "estimated_qoperation", prop=True)
+    (p_self,) = params(f, 1, [])
+    fn = Fn(f, {}, monadic=True, self_name=p_self, self_kind="result")
+    code = fn.body()
+    if fn.ret_type != "obj":
+        fail(f, "estimated_qoperation returns a %s" % fn.ret_type)
+    defs.append("Definition gen_estimated_qoperation (v_%s : est_result F) : py Obj :=\n  %s." % (p_self, code))
+    f = find_method(t_er, "StandardQTomographyEstimationResult", "estimated_qoperation_sequence", prop=True)
+    (p_self,) = params(f, 1, [])
+    fn = Fn(f, {}, monadic=False, self_name=p_self, self_kind="result")
+    code = fn.body()
+    if fn.ret_type != "objlist":
+        fail(f, "estimated_qoperation_sequence returns a %s" % fn.ret_type)
+    defs.append("Definition gen_estimated_qoperation_sequence (v_%s : est_result F) : list Obj :=\n  %s." % (p_self, code))
     text = "(* GENERATED by gen/c09_py2coq.py from %s, %s, %s - do not edit *)\n" % (F_QT, F_LE, F_ER)
     text += "From Coq Require Import Arith List Bool ZArith.\nFrom QV.Core Require Import OF Sums Mat.\nFrom QV.Model Require Import C09_LinEst C09_PySem.\nImport ListNotations.\n\n"
-    text += "Section Gen.\nContext (F : OF).\n\n" + "\n\n".join(defs) + "\nEnd Gen.\n"
+    text += "Section Gen.\nContext (F : OF).\n(* the template object's generate_from_var: variables -> object (abstract) *)\nContext (Obj : Type) (gfv : list F -> Obj).\n\n" + "\n\n".join(defs) + "\nEnd Gen.\n"
     text += "Arguments gen_is_fullrank_matA {F}. Arguments gen_calc_estimate_sequence {F}. Arguments gen_calc_estimate {F}.\n"
     text += "Arguments gen_estimated_var {F}. Arguments gen_estimated_var_sequence {F}.\n"
+    text += "Arguments gen_estimated_qoperation {F Obj} gfv. Arguments gen_estimated_qoperation_sequence {F Obj} gfv.\n"
     open(out, "w").write(text)
 
 
